@@ -1431,6 +1431,66 @@ def explode_local_records(tree):
     return n
 
 
+# ------------------------------------------------------------------ P22 try: x = T[k] / except KeyError: <leave>  is the membership test
+def keyerror_to_membership(tree):
+    """`try: x = T[k]` `except KeyError: <body that leaves>` (nothing else in the try, no else / finally, T and k plain names) is
+    `if k not in T: <body>` followed by `x = T[k]`: for a dict the lookup raises KeyError exactly when the key is missing."""
+    n = 0
+    for owner in ast.walk(tree):
+        for _nm, blk in _blocks(owner):
+            i = 0
+            while i < len(blk):
+                st = blk[i]
+                if isinstance(st, ast.Try) and len(st.body) == 1 and len(st.handlers) == 1 and not st.orelse and not st.finalbody \
+                        and isinstance(st.body[0], ast.Assign) and len(st.body[0].targets) == 1 and isinstance(st.body[0].targets[0], ast.Name) \
+                        and isinstance(st.body[0].value, ast.Subscript) and isinstance(st.body[0].value.value, ast.Name) \
+                        and isinstance(st.body[0].value.slice, ast.Name) and isinstance(st.handlers[0].type, ast.Name) and st.handlers[0].type.id == 'KeyError' \
+                        and st.handlers[0].name is None and terminates(st.handlers[0].body):
+                    sub = st.body[0].value
+                    test = ast.Compare(left=ast.Name(id=sub.slice.id, ctx=ast.Load()), ops=[ast.NotIn()], comparators=[ast.Name(id=sub.value.id, ctx=ast.Load())])
+                    guard = ast.copy_location(ast.If(test=test, body=st.handlers[0].body, orelse=[]), st)
+                    blk[i:i + 1] = [guard, st.body[0]]
+                    ast.fix_missing_locations(guard)
+                    n += 1
+                    i += 2
+                    continue
+                i += 1
+    return n
+
+
+# ------------------------------------------------------------------ P23 returns in the tail of an if-chain become one result variable
+def single_exit(tree):
+    """A function that ends `<if-chain>; return D` where every return inside the chain is the last statement of its block and every
+    block on the way is the last statement of its parent (so nothing runs after it but the final return): the chain assigns a result
+    variable, initialised to D, and the function returns it once."""
+    n = 0
+    for fn in [f for f in ast.walk(tree) if isinstance(f, ast.FunctionDef)]:
+        if len(fn.body) < 2 or not isinstance(fn.body[-1], ast.Return) or fn.body[-1].value is None or not isinstance(fn.body[-2], ast.If):
+            continue
+        chain = fn.body[-2]
+        if not any(isinstance(x, ast.Return) for x in ast.walk(chain)):
+            continue
+        if not _tail_positions_ok([chain]) or any(isinstance(x, (ast.Try, ast.With, ast.For, ast.While, ast.FunctionDef, ast.Lambda)) for x in ast.walk(chain)):
+            continue
+        if any(isinstance(x, ast.Return) and x.value is None for x in ast.walk(chain)):
+            continue
+        names = {x.id for x in ast.walk(fn) if isinstance(x, ast.Name)} | {a.arg for a in fn.args.args}
+        res = 'points' if 'points' not in names else ('result' if 'result' not in names else None)
+        if res is None:
+            continue
+
+        class _T(ast.NodeTransformer):
+            def visit_Return(self, node):
+                return ast.copy_location(ast.Assign(targets=[ast.Name(id=res, ctx=ast.Store())], value=node.value), node)
+        init = ast.copy_location(ast.Assign(targets=[ast.Name(id=res, ctx=ast.Store())], value=fn.body[-1].value), chain)
+        fn.body[-2] = _T().visit(chain)
+        fn.body[-1] = ast.copy_location(ast.Return(value=ast.Name(id=res, ctx=ast.Load())), fn.body[-1])
+        fn.body.insert(len(fn.body) - 2, init)
+        ast.fix_missing_locations(fn)
+        n += 1
+    return n
+
+
 # ------------------------------------------------------------------ P13 a record class that did not exist then is the dict it replaced
 def records_to_dicts(tree, new_names):
     """P13.  `class C(NamedTuple)` with plain fields, new since the baseline, whose instances are only built (C(...), x._replace(...)),
@@ -1901,6 +1961,7 @@ def normalise_source(src, rel, baseline, cf=None, lookups=True, renames=None, fo
     PercentFormats().visit(tree)
     MembershipDisplays().visit(tree)
     if lookups:
+        keyerror_to_membership(tree)
         get_to_membership(tree)
         get_found_to_membership(tree)
         get_default_to_if(tree)
@@ -1909,6 +1970,7 @@ def normalise_source(src, rel, baseline, cf=None, lookups=True, renames=None, fo
     if split:
         # the rewrites that also reshape code the rules already recognise as written are confined to the `kinds` views
         field_temporaries(tree)
+        single_exit(tree)
         case_split_kinds(tree)
     if cf:
         apply_cf(tree, cf)
